@@ -32,8 +32,9 @@ TypeCat == [a |-> <<>>, b |-> <<>>, h |-> <<>>,
             j |-> <<"inherits-defective-or-missing">>,                 \* an heir of i (allOf): i's properties are copied into it
             p |-> <<"missing-in-or">>]                                 \* like the first defect of o, in a type of its own
 TypeIds == DOMAIN TypeCat
-\* root mentions no type / @a / every registered name / has two defective choices of its own
-Roots == {"plain", "refs-a", "refs-all", "two-choices"}
+\* root mentions no type / @a / every registered name / has two defective choices of its own / is an heir of @i (the
+\* properties of @i, with their defects, are copied into the root, which is checked before any type)
+Roots == {"plain", "refs-a", "refs-all", "two-choices", "heir-of-i"}
 RootDefects == [rt \in Roots |-> IF rt = "two-choices" THEN <<"missing-in-choice", "missing-in-choice">> ELSE <<>>]
 Reuses == {"fresh", "second-root", "prechecked"}
 
